@@ -283,7 +283,11 @@ def check_guards(out, facts, S, D):
                             okp = False
                             break
                 if okp:
-                    got.add('PANIC' if any(e[0] in ('PANIC', 'ERR') or (e[0] == 'RET') for e in p_ if e[0] in ('PANIC',)) else 'OK')
+                    # an encoder has no error exit: the Err of a fallible helper is what a following `expect` turns into
+                    # a panic, so a path that ends in the helper's error counts as refusing, and the `expect` fork itself
+                    # (feasible only after that error) is not counted a second time
+                    hard = any(e[0] == 'PANIC' and (len(e) < 2 or e[1] not in ('expect', 'unwrap')) for e in p_)
+                    got.add('PANIC' if hard or (p_ and p_[-1][0] == 'ERR') else 'OK')
             want = 'OK' if n <= 0x1fffffff else 'PANIC'
             if got != {want}:
                 why.append('bits = %d: encoder outcomes %s, expected %s (the decoder %s this length)' % (n, sorted(got), want, 'accepts' if want == 'OK' else 'rejects'))
